@@ -277,6 +277,9 @@ func (e *Env) Finish(v Verdict, livenessProp string) bool {
 				e.Violate("C04", cls, "%s: %s; frames: %s", why, d, nitroFrames(e.S.AbortStack()))
 			}
 		}
+		if len(e.Res.Violations) == 0 && e.S.FaultAddr() != 0 {
+			e.Violate("C04", "memory-fault/"+firstNitroFrame(e.S.AbortStack()), "%s; frames: %s", why, nitroFrames(e.S.AbortStack()))
+		}
 		if len(e.Res.Violations) == 0 {
 			e.Violate(prop, "panic:"+panicClass(why), "%s", why)
 		}
@@ -357,4 +360,21 @@ func nitroFrames(stack string) string {
 		}
 	}
 	return strings.Join(out, " <- ")
+}
+
+func firstNitroFrame(stack string) string {
+	lines := strings.Split(stack, "\n")
+	for _, l := range lines {
+		if strings.Contains(l, "github.com/couchbase/nitro") && !strings.HasPrefix(l, "\t") {
+			fn := l
+			if j := strings.LastIndex(fn, "("); j > 0 {
+				fn = fn[:j]
+			}
+			if j := strings.LastIndex(fn, "/"); j >= 0 {
+				fn = fn[j+1:]
+			}
+			return fn
+		}
+	}
+	return "unknown"
 }
